@@ -21,7 +21,7 @@ ASSUMPTIONS = ['sessions start and warm-up lengths are aligned to every route ti
                'inside a fill hook the newest 1m row may be the partial candle (same timestamp and open, close = fill price)']
 MIN_OBS = {'array_comparisons': 10000, 'forming_comparisons': 2000, 'comparisons_after_midwindow_fill': 300,
            'fast_comparisons': 2000, 'stored_1m_checks': 2000, 'helper_cases': 200,
-           'callbacks_of_market_orders_run_inside_a_chunk': 100}
+           'callbacks_of_market_orders_run_inside_a_chunk': 100, 'tf:1M': 200, 'tf:1W': 200, 'tf:3D': 200, 'tf:1D': 200}
 
 SHARD_TIMEOUT = 3600      # generous wall-clock watchdog (its firing is INCONCLUSIVE, never a verdict)
 
@@ -228,6 +228,18 @@ def run_job(job):
     spec = specgen.random_session(rng, minutes=minutes, tfs=tfs, data_tfs=dts,
                                   warmup=rng.choice([0, 0, 240, 720]) if not job.get('warm') else 720,
                                   data_only=(job['i'] % 4 == 1))
+    if job.get('huge'):
+        # the long timeframes (1D, 3D, 1W, 1M) need a month of one-minute candles: one session per simulator and run
+        spec = specgen.random_session(rng, minutes=rng.choice([44000, 46111]), tfs=['4h'], data_tfs=['1D', '3D', '1W', '1M'],
+                                      warmup=0, nsym=1, fast=bool(job['fast']))
+        spec['fast'] = bool(job['fast'])
+        sym0 = spec['routes'][0]['symbol']
+        spec['data_routes'] = [{'symbol': sym0, 'timeframe': t_} for t_ in ('1D', '3D', '1W', '1M')]
+        for r in spec['routes']:
+            r['timeframe'] = '4h'
+            r['script']['p_enter'] = 0.05
+        for cs_ in spec['candles'].values():
+            cs_['t0'] = 89 * 302400 * 60000      # a session start aligned to the 3D, 1W and 1M (30-day) windows as well
     if job.get('no_warm'):
         spec['warmup'] = 0
     if job.get('cb_market'):
@@ -305,6 +317,9 @@ def make_jobs(tier, seed):
     n = 260 if tier == 'quick' else 5000
     jobs = [{'kind': 'session', 'seed': rng.randrange(1 << 30), 'i': i, 'big': (i % 10 == 9),
              'no_warm': (i % 5 == 0), 'logs': (i % 6 == 2), 'cb_market': (i % 5 == 3)} for i in range(n)]
+    for i in range(2 if tier == 'quick' else 8):
+        jobs.insert(0, {'kind': 'session', 'seed': rng.randrange(1 << 30), 'i': 100000 + i, 'huge': True, 'fast': i % 2 == 0,
+                        'big': False, 'no_warm': True, 'logs': False, 'cb_market': False})
     for i in range(4 if tier == 'quick' else 40):
         jobs.append({'kind': 'helpers', 'seed': rng.randrange(1 << 30), 'n': 80})
     return jobs
